@@ -798,10 +798,10 @@ func (vc *VC) execTypeSwitch(st *State, x *ast.TypeSwitchStmt) []Outcome {
 
 type modSet struct {
 	leaves map[types.Object]map[string]bool // struct variables: which leaves changed
-	env   map[types.Object]bool
-	comps map[string]bool
-	all   bool
-	alloc bool
+	env    map[types.Object]bool
+	comps  map[string]bool
+	all    bool
+	alloc  bool
 }
 
 // dryExec executes run on a clone of st with all obligations discarded.
